@@ -103,6 +103,13 @@ class Profile:
         cfg = base_cfg(rng, seed)
         cfg["weights"] = swarm_weights(rng, self.weights(cfg, rng), keep=self.keep)
         cfg["faults"] = rng.random() < 0.5     # half of all runs are fault-free
+        if rng.random() < 0.08:
+            # broad run: every operation kind of the alphabet gets a small weight, so that this
+            # property's clauses are also judged in states only other profiles' operations reach
+            cfg["broad"] = True
+            for k in sorted(KINDS):
+                if k not in cfg["weights"] and k not in self.never and not k.startswith("x_"):
+                    cfg["weights"][k] = 0.7
         if not cfg["faults"]:
             for k in self.fault_kinds:
                 cfg["weights"].pop(k, None)
@@ -112,6 +119,8 @@ class Profile:
     keep = ("new",)
     fault_kinds = ()
     own_kinds = frozenset()
+    # kinds that would put a run outside this property's stated conditions
+    never = frozenset(["json_twin", "raw_append", "nsmap_item", "clk"])
 
     def tune(self, cfg, rng):
         pass
